@@ -251,6 +251,12 @@ def _check_graph(case, ctx):
         return
     if not GC.all_finite(g_num):
         return ctx.fail("numeric-graph-diverged", "graph with numeric Jacobians produced non-finite poses while its exact twin converged")
+    if not r_ex.converged:
+        # un-damped Gauss-Newton did not settle even with exact Jacobians (1-D range / distance constraints can make it
+        # cycle): the two runs are then two samples of a non-convergent iteration and need not agree in their last iterate;
+        # the property compares optima, it does not promise convergence there
+        ctx.event("exact-twin-did-not-converge:comparison-skipped")
+        return
     worst = 0.0
     for i, (a, b) in enumerate(zip(g_num._vertices, g_ex._vertices)):
         k = gs.kind_of(a.pose)
